@@ -32,7 +32,12 @@ Inductive qitem :=
 | QNop                  (* BlobFile: _chain_future's _call_check_cancel on the wrapped future *)
 | QWakeup               (* BlobFile: task wakeup, the coroutine returns, the task is done *)
 | QUpdate               (* update_events: verified.set(); writing.clear() *)
-| QCompleted.           (* blob_completed_callback(self) *)
+| QCompleted            (* blob_completed_callback(self) *)
+(* the same three hops when the executor job FAILED (disk full, no permission, ...): the write task ends with the
+   exception, and - as repaired - both done-callbacks look at the task's outcome *)
+| QSetStateF            (* executor future finished with an exception *)
+| QWakeupF              (* the task is resumed with the exception and ends with it *)
+| QUpdateF.             (* update_events(failed task): writing.clear() only; the completion lambda does nothing *)
 
 Inductive kind := KFile | KBuffer.
 
@@ -108,7 +113,7 @@ Definition cancel_w (w : writer) : writer * bool :=
   else (mkW (w_key w) (w_open w) (w_buf w) (w_seen w) FCancelled, true).
 Definition cancel := app_w cancel_w.
 
-Inductive res := ROk | ROSError | RInvalid | RNew (i : nat) | RBadId | RRead (b : bytes) | RSkipped.
+Inductive res := ROk | ROSError | RInvalid | RNew (i : nat) | RBadId | RRead (b : bytes) | RSkipped | RBool (b : bool).
 
 Section C01.
 Variable H : bytes -> bytes.     (* sha384 *)
@@ -188,6 +193,8 @@ Definition save_verified (b : bytes) (s : state) : state :=
   else s.
 
 Definition done_cbs : list qitem := QUpdate :: (if cb then [QCompleted] else []).
+(* the same two done-callbacks when the write task failed: writing.clear() only, and a completion lambda that does nothing *)
+Definition fail_cbs : list qitem := QUpdateF :: (if cb then [QNop] else []).
 
 Definition run_item (it : qitem) (s : state) : state :=
   match it with
@@ -202,13 +209,19 @@ Definition run_item (it : qitem) (s : state) : state :=
               end
   | QTask b => match kd with
                | KFile => set_io (Some b) s                        (* run_in_executor submits the job *)
-               | KBuffer => enq done_cbs (match s_store s with Some _ => s | None => set_store (Some b) s end)
+               | KBuffer => match s_store s with
+                            | Some _ => enq fail_cbs s          (* OSError("already have bytes for blob") *)
+                            | None => enq done_cbs (set_store (Some b) s)
+                            end
                end
   | QSetState => enq [QNop; QWakeup] s
   | QNop => s
   | QWakeup => enq done_cbs s
   | QUpdate => set_writing false (set_verified true s)
   | QCompleted => set_completed (S (s_completed s)) s
+  | QSetStateF => enq [QNop; QWakeupF] s
+  | QWakeupF => enq fail_cbs s
+  | QUpdateF => set_writing false s
   end.
 
 (* run the callback at the head of the ready queue *)
@@ -223,6 +236,7 @@ Definition wt (it : qitem) : nat :=
   match it with
   | QClose _ | QRemove _ _ | QNop | QUpdate | QCompleted => 1
   | QWfc _ => 4 | QTask _ => 3 | QWakeup => 3 | QSetState => 5
+  | QUpdateF => 1 | QWakeupF => 3 | QSetStateF => 5
   end.
 Definition qweight (q : list qitem) : nat := fold_right (fun it a => (wt it + a)%nat) O q.
 Definition pending_count (ws : list writer) : nat :=
@@ -272,10 +286,24 @@ Definition start (file : option bytes) (expected : option N) : state :=
   | _, _ => mkS expected [] [] [] false false None None O
   end.
 
+(* BlobManager.is_blob_verified for a cached blob: a file is in the directory and the object is verified *)
+Definition manager_verified (s : state) : bool := file_exists s && s_verified s.
+
+(* the executor job fails: nothing appears under the blob's name (the write is atomic: temp file + rename), the
+   loop is notified of the exception *)
+Definition io_fail (s : state) : state :=
+  match s_io s with
+  | None => s
+  | Some _ => enq [QSetStateF] (set_io None s)
+  end.
+
 Inductive op :=
 | SetLength (n : Z) | Open (k : N) | Write (i : nat) (d : bytes) | CloseW (i : nat) | CloseBlob
 | Tick | Drain | IoDone | Read | Delete
-| Advance (dt : N).   (* time passes on the loop's clock: nothing of a blob depends on it *)
+| Advance (dt : N)    (* time passes on the loop's clock: nothing of a blob depends on it *)
+| IsVerified (n : option N)   (* BlobManager.is_blob_verified(hash, n) for the cached object: a pure query *)
+| Ensure                      (* BlobManager.ensure_completed_blobs_status([hash]): does it record 'finished'? *)
+| IoFail.                     (* the executor job raises (ENOSPC, EACCES, ...) *)
 
 Definition step (o : op) (s : state) : state * res :=
   match o with
@@ -290,6 +318,9 @@ Definition step (o : op) (s : state) : state * res :=
   | Read => read_blob s
   | Delete => delete_blob s
   | Advance _ => (s, ROk)
+  | IsVerified _ => (s, RBool (manager_verified s))
+  | Ensure => (s, RBool (manager_verified s))
+  | IoFail => (io_fail s, ROk)
   end.
 
 Definition run (ops : list op) (s : state) : state := fold_left (fun st o => fst (step o st)) ops s.
